@@ -194,8 +194,9 @@ func (as *NodeNameSpace) Root() *Node {
 }
 
 func (ns *NodeNameSpace) Browse(bd *ua.BrowseDescription) *ua.BrowseResult {
-	ns.mu.RLock()
-	defer ns.mu.RUnlock()
+	// The lock of the namespace is not held here: Node takes it for every
+	// lookup, and a read lock taken again while AddNode waits for the
+	// write lock blocks this goroutine and AddNode forever.
 
 	if ns.srv.cfg.logger != nil {
 		ns.srv.cfg.logger.Debug("BrowseRequest: id=%s mask=%08b\n", bd.NodeID, bd.ResultMask)
